@@ -58,6 +58,18 @@ def resolve(path):
     return path
 
 
+def key_of(path):
+    """the name a path goes by in the trace and the fault plan: normalised textually - unless it contains '..', which only
+    the kernel can resolve (the parent of a symbolic link's target is not the link's parent)"""
+    p = resolve(path)
+    if ".." in p.split("/"):
+        real = os.path.realpath(real_root() + p[len(ROOT):])
+        r = real_root()
+        if real.startswith(r):
+            return norm(ROOT + real[len(r):])
+    return norm(p)
+
+
 def under_root(path):
     path = resolve(path)
     return isinstance(path, str) and (path == ROOT or path.startswith(ROOT + "/"))
@@ -331,7 +343,7 @@ class SimFS(object):
     # ---- what the code under test reaches through the interposed builtins.open ----------------------------
     def open(self, path, mode="r", *args, **kwargs):
         real = to_real(path)        # as given: the kernel resolves it
-        path = norm(resolve(path))  # key for the trace and the fault plan
+        path = key_of(path)         # key for the trace and the fault plan
         if any(c in mode for c in "wax+"):
             try:
                 f = _o_open(real, mode, *args, **kwargs)
